@@ -11,8 +11,8 @@ impl SemVer {
     fn add_flattened_to_prerelease(&mut self, value: String) {
         for part in value.split('.') {
             if !part.is_empty() {
-                let identifier = if let Ok(num) = part.parse::<u32>() {
-                    PreReleaseIdentifier::UInt(num as u64)
+                let identifier = if let Ok(num) = part.parse::<u64>() {
+                    PreReleaseIdentifier::UInt(num)
                 } else {
                     PreReleaseIdentifier::Str(part.to_string())
                 };
@@ -26,8 +26,8 @@ impl SemVer {
     fn add_flattened_to_build(&mut self, value: String) {
         for part in value.split('.') {
             if !part.is_empty() {
-                let metadata = if let Ok(num) = part.parse::<u32>() {
-                    BuildMetadata::UInt(num as u64)
+                let metadata = if let Ok(num) = part.parse::<u64>() {
+                    BuildMetadata::UInt(num)
                 } else {
                     BuildMetadata::Str(part.to_string())
                 };
@@ -50,13 +50,13 @@ impl SemVer {
         for component in components {
             if let Some(value) = component.resolve_value(zerv_vars, int_sanitizer)
                 && !value.is_empty()
-                && let Ok(num) = value.parse::<u32>()
+                && let Ok(num) = value.parse::<u64>()
                 && core_count < 3
             {
                 match core_count {
-                    0 => self.major = num as u64,
-                    1 => self.minor = num as u64,
-                    2 => self.patch = num as u64,
+                    0 => self.major = num,
+                    1 => self.minor = num,
+                    2 => self.patch = num,
                     _ => unreachable!(),
                 }
                 core_count += 1;
@@ -81,8 +81,8 @@ impl SemVer {
         let expanded = var.resolve_expanded_values(zerv_vars, semver_sanitizer);
         for value in expanded {
             if !value.is_empty() {
-                let identifier = if let Ok(num) = value.parse::<u32>() {
-                    PreReleaseIdentifier::UInt(num as u64)
+                let identifier = if let Ok(num) = value.parse::<u64>() {
+                    PreReleaseIdentifier::UInt(num)
                 } else {
                     PreReleaseIdentifier::Str(value)
                 };
